@@ -240,7 +240,8 @@ impl Mp4Track {
 
     pub fn sample_count(&self) -> u32 {
         if !self.trafs.is_empty() {
-            let mut sample_count = 0u32;
+            // samples described by the moov come first, the fragments continue the numbering
+            let mut sample_count = self.stbl_sample_count();
             for traf in self.trafs.iter() {
                 if let Some(ref trun) = traf.trun {
                     // the count is a u32 by API; saturate rather than panic on a file
@@ -380,9 +381,23 @@ impl Mp4Track {
         ))
     }
 
+    /// number of samples described by the moov's own sample table
+    fn stbl_sample_count(&self) -> u32 {
+        self.trak.mdia.minf.stbl.stsz.sample_count
+    }
+
+    /// Whether `sample_id` lives in a movie fragment. The samples of the moov's sample
+    /// table are numbered first, so the answer does not depend on how many `moof` boxes
+    /// of the file were seen.
+    fn is_fragment_sample(&self, sample_id: u32) -> bool {
+        !self.trafs.is_empty() && sample_id > self.stbl_sample_count()
+    }
+
     /// return `(traf_idx, sample_idx_in_trun)`
     fn find_traf_idx_and_sample_idx(&self, sample_id: u32) -> Option<(usize, usize)> {
-        let global_idx = sample_id.checked_sub(1)?;
+        let global_idx = sample_id
+            .checked_sub(1)?
+            .checked_sub(self.stbl_sample_count())?;
         let mut offset = 0;
         for traf_idx in 0..self.trafs.len() {
             if let Some(trun) = &self.trafs[traf_idx].trun {
@@ -397,7 +412,7 @@ impl Mp4Track {
     }
 
     fn sample_size(&self, sample_id: u32) -> Result<u32> {
-        if !self.trafs.is_empty() {
+        if self.is_fragment_sample(sample_id) {
             if let Some((traf_idx, sample_idx)) = self.find_traf_idx_and_sample_idx(sample_id) {
                 if let Some(size) = self.trafs[traf_idx]
                     .trun
@@ -448,7 +463,7 @@ impl Mp4Track {
     }
 
     pub fn sample_offset(&self, sample_id: u32) -> Result<u64> {
-        if !self.trafs.is_empty() {
+        if self.is_fragment_sample(sample_id) {
             if let Some((traf_idx, sample_idx)) = self.find_traf_idx_and_sample_idx(sample_id) {
                 let mut sample_offset = self.trafs[traf_idx]
                     .tfhd
@@ -540,7 +555,7 @@ impl Mp4Track {
     }
 
     fn sample_time(&self, sample_id: u32) -> Result<(u64, u32)> {
-        if !self.trafs.is_empty() {
+        if self.is_fragment_sample(sample_id) {
             let mut base_start_time = 0;
             let mut default_sample_duration = self.default_sample_duration;
             if let Some((traf_idx, sample_idx)) = self.find_traf_idx_and_sample_idx(sample_id) {
@@ -619,7 +634,7 @@ impl Mp4Track {
     }
 
     fn sample_rendering_offset(&self, sample_id: u32) -> i32 {
-        if !self.trafs.is_empty() {
+        if self.is_fragment_sample(sample_id) {
             if let Some((traf_idx, sample_idx)) = self.find_traf_idx_and_sample_idx(sample_id) {
                 if let Some(cts) = self.trafs[traf_idx]
                     .trun
@@ -639,7 +654,7 @@ impl Mp4Track {
     }
 
     fn is_sync_sample(&self, sample_id: u32) -> bool {
-        if !self.trafs.is_empty() {
+        if self.is_fragment_sample(sample_id) {
             let sample_sizes_count = self.sample_count() / self.trafs.len() as u32;
             return sample_id == 1
                 || (sample_sizes_count != 0 && sample_id % sample_sizes_count == 0);
